@@ -172,10 +172,10 @@ func typeInv(t types.Type, v *Term, alloc *Term) *Term {
 		_ = u
 		l := Sel(v, "len")
 		c := Sel(v, "cap")
-		return And(Le(IntLit(0), l), Le(l, c), Implies(Sel(v, "isnil"), Eq(c, IntLit(0))))
+		return And(Le(IntLit(0), l), Le(l, c), Le(c, BigLit("9223372036854775807")), Implies(Sel(v, "isnil"), Eq(c, IntLit(0))))
 	case *types.Basic:
 		if u.Info()&types.IsString != 0 {
-			return Ge(strLen(v), IntLit(0))
+			return And(Ge(strLen(v), IntLit(0)), Le(strLen(v), BigLit("9223372036854775807")))
 		}
 	}
 	return True
